@@ -5,7 +5,7 @@ From Falcon.lib Require Import PyStr.
 From Falcon.C14 Require Import Spec.
 From Falcon.C14 Require Import Model ModelAsync.
 From Falcon.C13 Require Import Model ModelReaders Spec ProofsRoundtrip ProofsNoCrash ProofsOracle
-  ProofsChunkingSync ProofsChunkingAsync ModelPart SpecPart ProofsPartHeader ProofsPart.
+  ProofsChunkingSync ProofsChunkingAsync ModelPart SpecPart ProofsPartHeader ProofsPart ModelHeap ProofsHeap.
 Import ListNotations.
 Local Open Scope nat_scope.
 
@@ -137,6 +137,23 @@ Theorem C13_form_roundtrip : forall cs c b pre epi fin fs script,
              (firstn (length (fst (expected_run cs c 0 (map field_part fs) script))) fs).
 Proof. exact form_roundtrip. Qed.
 Print Assumptions C13_form_roundtrip.
+
+(* WHEN THE METADATA IS READ.  ModelHeap.v models the header dictionaries as references into a
+   store with one allocation per yielded part (the `headers = {}` inside the loop) and makes the
+   moment of the metadata read part of the consumption script: before the content, after the
+   content, only after the whole form was iterated (part objects kept), or twice.  Whatever the
+   moments, every read returns the view of the part's OWN headers ... *)
+Theorem C13_metadata_read_time_independent : forall ps times,
+  metadata_views false ps times = own_views ps times.
+Proof. exact metadata_read_time_independent. Qed.
+Print Assumptions C13_metadata_read_time_independent.
+
+(* ... which is false of the aliasing variant (one dictionary shared by all parts of an
+   iteration, cleared per part): a late read reports a later part's values *)
+Theorem C13_metadata_late_read_wrong_if_shared :
+  exists ps times, metadata_views true ps times <> own_views ps times.
+Proof. exact late_read_wrong_if_shared. Qed.
+Print Assumptions C13_metadata_late_read_wrong_if_shared.
 
 (* INVALID STRUCTURE.  For EVERY byte string as body (valid, corrupted, truncated, garbage),
    every boundary, every limit setting and every consumption script with valid read_until
